@@ -2874,6 +2874,7 @@ impl Node {
     /// The node tells us that it is forgetting a channel
     pub fn forget_channel(&self, channel_id: &ChannelId) -> Result<(), Status> {
         let mut stub_found = false;
+        let mut monitor_updated = false;
         // As per devrandom the lock order should be node_state -> channels -> channel
         let mut node_state: MutexGuard<'_, NodeState> = self.get_state();
         let mut channels = self.get_channels();
@@ -2893,6 +2894,7 @@ impl Node {
                 ChannelSlot::Ready(chan) => {
                     info!("forget_channel {}", channel_id);
                     chan.forget()?;
+                    monitor_updated = true;
                 }
             };
             if channel_id.oid() > node_state.dbid_high_water_mark {
@@ -2909,6 +2911,16 @@ impl Node {
             self.persister.delete_channel(&self.get_id(), &channel_id).unwrap_or_else(|err| {
                 panic!("could not delete channel {}: {:?}", &channel_id, err)
             });
+        }
+        if monitor_updated {
+            // The forget request lives in the channel monitor state, which is persisted
+            // with the tracker.  Take the tracker lock only after releasing the others.
+            drop(channels);
+            drop(node_state);
+            let tracker = self.get_tracker();
+            self.persister
+                .update_tracker(&self.get_id(), &tracker)
+                .map_err(|_| internal_error("tracker persist failed"))?;
         }
         return Ok(());
     }
